@@ -236,6 +236,7 @@ def run_mode(ctx, mode, maxlen):
 
 
 def run(ctx):
+    core.quiet_picotool()
     ensure_hook()
     ctx.rule = ('all arguments of <= N path components over {a, foo, foobar, .., ., "" (absolute)}: #include x 3 cart locations (plain directory, inside the PICO-8 carts folder, '
                 'in a prefix-sharing sibling of it), require() x 4 load-path settings (default, --lua-path relative, --lua-path absolute, PICO8_LUA_PATH); canary files at every resolution; '
